@@ -61,10 +61,18 @@ pub enum FlowKind {
     TwoBatches,
     /// top-level `assume_ordering` of an unordered stream (an observation, no tick)
     TopOrder,
+    /// two slices whose ticks are ready at once: slice A batches stream 1 and passes it on, slice B
+    /// batches stream 0 and snapshots a `count()` of slice A's output
+    TwoSlices,
+    /// batch of stream 0 + snapshot of a top-level commutative fold (count) of the *unordered*
+    /// stream 1: the snapshot is fed by a `TopLevelFoldHook` + `PassthroughSingletonHook` pair.
+    /// NOT part of `ALL`: on the current tree this program crashes the simulator (FINDINGS.md #1);
+    /// it is kept so that the finding's replay file stays executable.
+    BatchFoldSnap,
 }
 #[cfg(stageleft_runtime)]
 impl FlowKind {
-    pub const ALL: [FlowKind; 8] = [
+    pub const ALL: [FlowKind; 9] = [
         FlowKind::Total,
         FlowKind::NoOrd,
         FlowKind::KeyedTotal,
@@ -73,7 +81,10 @@ impl FlowKind {
         FlowKind::BatchKeyedSnap,
         FlowKind::TwoBatches,
         FlowKind::TopOrder,
+        FlowKind::TwoSlices,
     ];
+    /// programs that are only reachable through replay files / finding demonstrations
+    pub const FINDING: [FlowKind; 1] = [FlowKind::BatchFoldSnap];
     pub fn name(self) -> &'static str {
         match self {
             FlowKind::Total => "total",
@@ -84,11 +95,13 @@ impl FlowKind {
             FlowKind::BatchKeyedSnap => "batch_keyed_snapshot",
             FlowKind::TwoBatches => "two_batches",
             FlowKind::TopOrder => "top_order",
+            FlowKind::TwoSlices => "two_slices",
+            FlowKind::BatchFoldSnap => "batch_fold_snapshot",
         }
     }
     pub fn inputs(self) -> usize {
         match self {
-            FlowKind::BatchSnapState | FlowKind::BatchKeyedSnap | FlowKind::TwoBatches => 2,
+            FlowKind::BatchSnapState | FlowKind::BatchKeyedSnap | FlowKind::TwoBatches | FlowKind::BatchFoldSnap | FlowKind::TwoSlices => 2,
             _ => 1,
         }
     }
@@ -101,11 +114,11 @@ impl FlowKind {
     }
     /// the batch of port 0 is promised in order (per key)
     pub fn batch_ordered(self) -> bool {
-        matches!(self, FlowKind::Total | FlowKind::KeyedTotal | FlowKind::BatchSnapState | FlowKind::BatchKeyedSnap | FlowKind::TwoBatches)
+        matches!(self, FlowKind::Total | FlowKind::KeyedTotal | FlowKind::BatchSnapState | FlowKind::BatchKeyedSnap | FlowKind::TwoBatches | FlowKind::BatchFoldSnap | FlowKind::TwoSlices)
     }
     /// port 1 feeds a snapshot (not a batch)
     pub fn port1_is_snapshot(self) -> bool {
-        matches!(self, FlowKind::BatchSnapState | FlowKind::BatchKeyedSnap)
+        matches!(self, FlowKind::BatchSnapState | FlowKind::BatchKeyedSnap | FlowKind::BatchFoldSnap | FlowKind::TwoSlices)
     }
     pub fn has_tick(self) -> bool {
         self != FlowKind::TopOrder
@@ -127,6 +140,8 @@ enum Ports {
     BatchKeyedSnap(Tx<i32, TotalOrder>, Tx<Kv, TotalOrder>, Rx<(Vec<i32>, Vec<(u8, usize)>)>),
     TwoBatches(Tx<i32, TotalOrder>, Tx<i32, TotalOrder>, Rx<(Vec<i32>, Vec<i32>)>),
     TopOrder(Tx<i32, NoOrder>, Rx<i32>),
+    BatchFoldSnap(Tx<i32, TotalOrder>, Tx<i32, NoOrder>, Rx<(Vec<i32>, usize)>),
+    TwoSlices(Tx<i32, TotalOrder>, Tx<i32, TotalOrder>, Rx<(Vec<i32>, usize)>),
 }
 
 #[cfg(stageleft_runtime)]
@@ -263,6 +278,34 @@ pub fn build(kind: FlowKind) -> Flow {
             let (tx, input) = node.sim_input::<i32, NoOrder, ExactlyOnce>();
             let rx = input.assume_ordering::<TotalOrder>(nondet!(/** corpus: the order is what is explored */)).sim_output();
             Ports::TopOrder(tx, rx)
+        }
+        FlowKind::TwoSlices => {
+            let (tx0, in0) = node.sim_input::<i32, TotalOrder, ExactlyOnce>();
+            let (tx1, in1) = node.sim_input::<i32, TotalOrder, ExactlyOnce>();
+            let a_out = sliced! {
+                let a = use::batch(in1, nondet!(/** corpus: slice A */));
+                a
+            };
+            let a_count = a_out.count();
+            let rx = sliced! {
+                let b = use::batch(in0, nondet!(/** corpus: slice B */));
+                let c = use::snapshot(a_count, nondet!(/** corpus: slice B */));
+                b.fold(q!(|| Vec::new()), q!(|acc: &mut Vec<i32>, v| acc.push(v))).zip(c).into_stream()
+            }
+            .sim_output();
+            Ports::TwoSlices(tx0, tx1, rx)
+        }
+        FlowKind::BatchFoldSnap => {
+            let (tx0, in0) = node.sim_input::<i32, TotalOrder, ExactlyOnce>();
+            let (tx1, in1) = node.sim_input::<i32, NoOrder, ExactlyOnce>();
+            let counted = in1.fold(q!(|| 0usize), q!(|acc: &mut usize, _v| *acc += 1, commutative = manual_proof!(/** counting is commutative */)));
+            let rx = sliced! {
+                let b = use::batch(in0, nondet!(/** corpus */));
+                let c = use::snapshot(counted, nondet!(/** corpus */));
+                b.fold(q!(|| Vec::new()), q!(|acc: &mut Vec<i32>, v| acc.push(v))).zip(c).into_stream()
+            }
+            .sim_output();
+            Ports::BatchFoldSnap(tx0, tx1, rx)
         }
     };
     let compiled = flow.sim().compiled();
@@ -421,6 +464,24 @@ impl Flow {
                 body!(
                     |items: &Vec<Kv>| tx0.send_many(unkey(items)),
                     |items: &Vec<Kv>| tx1.send_many(unkey(items)),
+                    async || conv(rx.next().await),
+                    async || rx.collect::<Vec<_>>().await.into_iter().map(conv).collect()
+                )
+            }
+            Ports::TwoSlices(tx0, tx1, rx) => {
+                let conv = |(v, c): (Vec<i32>, usize)| Rec { batch: k0(v), snap: vec![(0, c as i64)], ..Default::default() };
+                body!(
+                    |items: &Vec<Kv>| tx0.send_many(unkey(items)),
+                    |items: &Vec<Kv>| tx1.send_many(unkey(items)),
+                    async || conv(rx.next().await),
+                    async || rx.collect::<Vec<_>>().await.into_iter().map(conv).collect()
+                )
+            }
+            Ports::BatchFoldSnap(tx0, tx1, rx) => {
+                let conv = |(v, c): (Vec<i32>, usize)| Rec { batch: k0(v), snap: vec![(0, c as i64)], ..Default::default() };
+                body!(
+                    |items: &Vec<Kv>| tx0.send_many(unkey(items)),
+                    |items: &Vec<Kv>| tx1.send_many_unordered(unkey(items)),
                     async || conv(rx.next().await),
                     async || rx.collect::<Vec<_>>().await.into_iter().map(conv).collect()
                 )
